@@ -19,7 +19,7 @@ type SOp struct {
 	I int    `json:"i,omitempty"` // identifier index in the universe
 	V int    `json:"v,omitempty"` // version 1..3
 	N int    `json:"n,omitempty"` // workers / preload size selector
-	F int    `json:"f,omitempty"` // commit: fail the F-th ledger write of this commit (0 = none)
+	F int    `json:"f,omitempty"` // commit: bit i set = fail the (i+1)-th ledger write of this commit (0 = none)
 	C bool   `json:"c,omitempty"` // getnodelta: cache flag
 }
 
@@ -35,14 +35,14 @@ var c15Universe = func() []atree.SlabID {
 		idx[6] = byte(i >> 8)
 		return atree.NewSlabID(addrOf(a), idx)
 	}
-	ids := []atree.SlabID{mk(1, 1), mk(1, 2), mk(2, 1), mk(0, 1)}
-	for i := uint64(3); i < 15; i++ { // padding ids: only used to push BatchPreload over its parallel threshold
+	ids := []atree.SlabID{mk(1, 1), mk(1, 2), mk(2, 1), mk(0, 1), mk(1, 3), mk(2, 2)}
+	for i := uint64(4); i < 16; i++ { // padding ids: only used to push BatchPreload over its parallel threshold
 		ids = append(ids, mk(1, i))
 	}
 	return ids
 }()
 
-const c15Core = 4 // identifiers that ops act on
+const c15Core = 6 // identifiers that ops act on (two owners, one temporary-address id)
 
 func c15Register(v int) []byte { return []byte{0x10, 0x3f, 0xd8, tagU64, byte(v)} }
 
@@ -253,9 +253,17 @@ func runC15(cs *SCase, vis *c15Visit) (*CaseStats, error) {
 			}
 			sort.Slice(owned, func(a, b int) bool { return c15Universe[owned[a]].Compare(c15Universe[owned[b]]) < 0 })
 			l.FailAt = nil
-			injected := op.F > 0 && op.F <= len(owned)
-			if injected {
-				l.FailAt = map[int]bool{l.Writes + op.F: true}
+			injected := false
+			if op.F > 0 {
+				l.FailAt = map[int]bool{}
+				for b := 0; b < 6; b++ {
+					if op.F&(1<<b) != 0 {
+						l.FailAt[l.Writes+b+1] = true
+						if b == lowestBit(op.F) && b < len(owned) {
+							injected = true // the first failing position is reached iff the commit issues that many writes
+						}
+					}
+				}
 			}
 			logStart := len(l.Log)
 			var err error
@@ -371,6 +379,15 @@ func runC15(cs *SCase, vis *c15Visit) (*CaseStats, error) {
 	return st, nil
 }
 
+func lowestBit(x int) int {
+	for b := 0; b < 30; b++ {
+		if x&(1<<b) != 0 {
+			return b
+		}
+	}
+	return 0
+}
+
 var c15Kinds = []string{"store", "store", "remove", "get", "getnodelta", "commit", "ncommit", "dropdeltas", "dropcache", "preload", "recreate"}
 
 func init() {
@@ -392,7 +409,7 @@ func init() {
 				case "commit", "ncommit":
 					op.N = rapid.IntRange(0, 3).Draw(t, "w")
 					if rapid.IntRange(0, 2).Draw(t, "inj") == 0 {
-						op.F = rapid.IntRange(1, 3).Draw(t, "f")
+						op.F = rapid.IntRange(1, 31).Draw(t, "f")
 					}
 				case "preload":
 					op.N = rapid.IntRange(0, 4).Draw(t, "pn")
